@@ -956,14 +956,17 @@ class VizierServicer(vizier_service_pb2_grpc.VizierServiceServicer):
       )
       grpc_util.handle_exception(e, context)
 
-    try:
-      self.datastore.update_metadata(
-          request.name,
-          [x.metadatum for x in request.delta if not x.HasField('trial_id')],
-          [x for x in request.delta if x.HasField('trial_id')],
-      )
-    except KeyError as e:
-      return vizier_service_pb2.UpdateMetadataResponse(
-          error_details=';'.join(e.args)
-      )
+    # Other RPCs read-modify-write whole Study / Trial protos under this lock;
+    # writing metadata outside of it would let them overwrite the update.
+    with self._study_name_to_lock[request.name]:
+      try:
+        self.datastore.update_metadata(
+            request.name,
+            [x.metadatum for x in request.delta if not x.HasField('trial_id')],
+            [x for x in request.delta if x.HasField('trial_id')],
+        )
+      except KeyError as e:
+        return vizier_service_pb2.UpdateMetadataResponse(
+            error_details=';'.join(e.args)
+        )
     return vizier_service_pb2.UpdateMetadataResponse()
